@@ -984,7 +984,10 @@ func (p *remoteProp) step(ctx context.Context, rc *RunCtx, rp *RemoteParams, g *
 // readSeek applies a Read/Seek sequence and compares with the stored bytes.
 func (p *remoteProp) readSeek(rc io.ReadCloser, n *Node, op RemoteOp, present bool, refused *error, faultKind func() string) *Verdict {
 	failing := func() bool { k := faultKind(); return k == "status-500" || k == "status-429" || k == "transport" }
-	tampering := func() bool { k := faultKind(); return k != "" && k != "status-500" && k != "status-429" && k != "transport" }
+	tampering := func() bool {
+		k := faultKind()
+		return k != "" && k != "status-500" && k != "status-429" && k != "transport"
+	}
 	data := n.Data
 	var pos int64
 	sk, canSeek := rc.(io.Seeker)
